@@ -52,4 +52,4 @@ require (
 	gopkg.in/ini.v1 v1.67.0 // indirect
 )
 
-replace github.com/folbricht/desync => /work/c18/repo
+replace github.com/folbricht/desync => /repo
